@@ -10,6 +10,8 @@
 
 #include "writer.h"
 
+static constexpr std::size_t MAX_COMPRESSION_BUFFER = 65536;
+
 void CDNS::GzipCborOutputWriter::write(const char* p, std::size_t size)
 {
     m_gzip.next_in = reinterpret_cast<const unsigned char*>(p);
@@ -48,7 +50,11 @@ void CDNS::GzipCborOutputWriter::close()
 
 int CDNS::GzipCborOutputWriter::write_gzip(std::size_t in_size, int action)
 {
+    // Output is produced in bounded chunks (the callers loop until all input is consumed / the stream
+    // is finished), so the stack buffer does not grow with the size of the chunk passed to write()
     std::size_t size = in_size + in_size / 3 + 128;
+    if (size > MAX_COMPRESSION_BUFFER)
+        size = MAX_COMPRESSION_BUFFER;
     uint8_t buff[size];
 
     // Set output buffer
@@ -101,7 +107,11 @@ void CDNS::XzCborOutputWriter::close()
 
 lzma_ret CDNS::XzCborOutputWriter::write_lzma(std::size_t in_size, lzma_action action)
 {
+    // Output is produced in bounded chunks (the callers loop until all input is consumed / the stream
+    // is finished), so the stack buffer does not grow with the size of the chunk passed to write()
     std::size_t size = in_size + in_size / 3 + 128;
+    if (size > MAX_COMPRESSION_BUFFER)
+        size = MAX_COMPRESSION_BUFFER;
     uint8_t buff[size];
 
     // Set output buffer
